@@ -6,8 +6,11 @@ import (
 	"fmt"
 	"log/slog"
 	"net/netip"
+	"os"
+	"strconv"
 	"strings"
 	"sync"
+	"syscall"
 	"testing"
 	"time"
 
@@ -595,6 +598,126 @@ func (cv *c16Cov) merge(local *[7][][2]int64) {
 
 type c16Stats struct {
 	evals, allow, drop, authentic, tracked, leftover int64
+	nest                                             *c16NestStats // non-nil: classify every admitted packet by the remote-CIDR nesting situation (nested phases)
+}
+
+// c16NestStats counts, for packets the reference admits, how the admitting rules relate to the other rules of the set
+// whose remote CIDR also covers the packet's remote address (index 0: IPv4 remote, 1: IPv6 remote).
+type c16NestStats struct {
+	covered2      [2]int64 // >= 2 rules of the direction with distinct remote CIDRs (different length) cover the remote address
+	onlyWider     [2]int64 // ... and the packet is admitted although the most specific covering rule does not match in full
+	onlyNarrowest [2]int64 // ... and only a most specific covering rule matches in full
+	samePrefix    [2]int64 // two rules with the same remote CIDR (same table slot) cover it and exactly one of them matches in full
+	byOtherKind   [2]int64 // a covering cidr rule fails and a rule without cidr (groups / host / any) admits the packet
+	depth3        [2]int64 // three different prefix lengths cover the remote address
+}
+
+func (a *c16NestStats) add(b *c16NestStats) {
+	for k := 0; k < 2; k++ {
+		a.covered2[k] += b.covered2[k]
+		a.onlyWider[k] += b.onlyWider[k]
+		a.onlyNarrowest[k] += b.onlyNarrowest[k]
+		a.samePrefix[k] += b.samePrefix[k]
+		a.byOtherKind[k] += b.byOtherKind[k]
+		a.depth3[k] += b.depth3[k]
+	}
+}
+
+// c16NestClass describes the nesting situation of one admitted packet (flat loops over the rule list; reference side only).
+// The returned word is used in violation signatures, the counters feed the vacuity guards of the nested phases.
+func c16NestClass(n c16Node, rules []c16Rule, p *c16Peer, pkt firewall.Packet, incoming bool, ns *c16NestStats) string {
+	fam := 0
+	if pkt.RemoteAddr.Is6() {
+		fam = 1
+	}
+	type cover struct {
+		bits int
+		pfx  netip.Prefix
+		full bool
+	}
+	var covers []cover
+	otherFull := false
+	for i := range rules {
+		r := &rules[i]
+		if r.Incoming != incoming {
+			continue
+		}
+		m, _, _ := c16RefMatch(n, r, p, pkt, incoming)
+		if r.Cidr != "" && r.Cidr != "any" && r.cidrP.Contains(pkt.RemoteAddr) {
+			covers = append(covers, cover{r.cidrP.Bits(), r.cidrP.Masked(), m == c16FAll})
+		} else if m == c16FAll {
+			otherFull = true
+		}
+	}
+	if len(covers) == 0 {
+		return ""
+	}
+	maxBits, lens, anyFull, anyFail := -1, map[int]bool{}, false, false
+	for _, cv := range covers {
+		lens[cv.bits] = true
+		if cv.bits > maxBits {
+			maxBits = cv.bits
+		}
+		if cv.full {
+			anyFull = true
+		} else {
+			anyFail = true
+		}
+	}
+	narrowFull, widerFull, sameSlotMixed := false, false, false
+	for i, cv := range covers {
+		if cv.full && cv.bits == maxBits {
+			narrowFull = true
+		}
+		if cv.full && cv.bits < maxBits {
+			widerFull = true
+		}
+		for _, o := range covers[i+1:] {
+			if o.pfx == cv.pfx && o.full != cv.full {
+				sameSlotMixed = true
+			}
+		}
+	}
+	class := ""
+	if len(lens) >= 2 {
+		if ns != nil {
+			ns.covered2[fam]++
+			if len(lens) >= 3 {
+				ns.depth3[fam]++
+			}
+		}
+		switch {
+		case widerFull && !narrowFull:
+			class = "nested remote cidrs: admitted only by a rule whose cidr is less specific than another covering rule's"
+			if ns != nil {
+				ns.onlyWider[fam]++
+			}
+		case narrowFull && !widerFull:
+			class = "nested remote cidrs: admitted only by the most specific covering rule"
+			if ns != nil {
+				ns.onlyNarrowest[fam]++
+			}
+		case anyFull:
+			class = "nested remote cidrs: admitted by covering rules of several prefix lengths"
+		}
+	}
+	if sameSlotMixed {
+		if class == "" {
+			class = "two rules with the same remote cidr, one of them admits"
+		}
+		if ns != nil {
+			ns.samePrefix[fam]++
+		}
+	}
+	if !anyFull && anyFail && otherFull {
+		if class == "" {
+			class = "a covering cidr rule fails, a groups/host/any rule admits"
+		}
+		if ns != nil {
+			ns.byOtherKind[fam]++
+		}
+	}
+	return class
 }
 
 // c16RunSet checks one rule set in one world: builds a fresh real firewall, compares every probe of every peer.
@@ -645,6 +768,9 @@ func c16RunSet(c *mc.Check, l *slog.Logger, cp *cert.CAPool, w *c16World, rules 
 					cov[6][r.idx[6]][b]++
 				}
 			}
+			if want && st.nest != nil {
+				c16NestClass(w.Node, rules, p, pr.Pkt, pr.Incoming, st.nest)
+			}
 			if got != want {
 				why := c16RefWhy(w.Node, rules, p, pr.Pkt, pr.Incoming)
 				var sig string
@@ -652,6 +778,9 @@ func c16RunSet(c *mc.Check, l *slog.Logger, cp *cert.CAPool, w *c16World, rules 
 					sig = fmt.Sprintf("Drop allows a packet the rules do not admit (%s; %s packet%s)", why, c16ProtoName(pr.Pkt.Protocol), c16FragWord(pr.Pkt))
 				} else {
 					sig = fmt.Sprintf("Drop refuses a packet a rule admits (%v; %s packet%s)", err, c16ProtoName(pr.Pkt.Protocol), c16FragWord(pr.Pkt))
+					if cl := c16NestClass(w.Node, rules, p, pr.Pkt, pr.Incoming, nil); cl != "" && len(rules) > 1 {
+						sig += " [" + cl + "]"
+					}
 				}
 				c.Violation(sig, c16Detail(w, rules, p, pr, got, want, why, err, phase))
 			}
@@ -752,6 +881,140 @@ func c16Peers(full bool) []c16Peer {
 		}
 	}
 	return out
+}
+
+// ---------------------------------------------------------------------------------------------------------------
+// nested / overlapping remote CIDRs (phases 2 and 3)
+//
+// The remote-CIDR selector is the one rule field whose table (a prefix trie per proto/port/CA bucket) can hold SEVERAL
+// entries that apply to the same packet: every rule whose cidr covers the remote address counts, whatever its prefix
+// length, each with its own local_cidr. These phases install pairs and triples of rules whose remote CIDRs nest
+// (/32 in /29 in /24 in /8 in /0, /128 in /64 in /8 in ::/0, peer unsafe networks), are equal (same trie slot, also equal
+// only after masking), are siblings or disjoint, combined with every local_cidr, CA constraint, port bucket and with
+// cidr+host / cidr+groups / groups / host / any partners. The oracle is the same flat-list reference as everywhere else.
+
+type c16PP struct {
+	Proto string
+	Port  c16PortV
+}
+
+type c16NestAlpha struct {
+	Sels   []c16Sel
+	Locals []string
+	CAs    [][2]string // (ca_name, ca_sha)
+	PPs    []c16PP
+}
+
+func (a c16NestAlpha) rules() []c16Rule {
+	var out []c16Rule
+	for _, pp := range a.PPs {
+		for _, ca := range a.CAs {
+			for _, lc := range a.Locals {
+				for _, s := range a.Sels {
+					out = append(out, c16Rule{Proto: pp.Proto, PortKind: pp.Port.Kind, Lo: pp.Port.Lo, Hi: pp.Port.Hi,
+						Groups: s.Groups, Host: s.Host, Cidr: s.Cidr, LocalCidr: lc, CAName: ca[0], CASha: ca[1]}.prep())
+				}
+			}
+		}
+	}
+	return out
+}
+
+func c16CidrSels(cidrs ...string) []c16Sel {
+	var out []c16Sel
+	for _, c := range cidrs {
+		out = append(out, c16Sel{Cidr: c})
+	}
+	return out
+}
+
+func c16NestNodes(c *mc.Check) []c16Node {
+	v4 := c16Prefixes("10.0.0.1/24")
+	dual := c16Prefixes("10.0.0.1/24", "fd00::1/64")
+	un := c16Prefixes("172.16.0.0/16")
+	un46 := c16Prefixes("172.16.0.0/16", "fd01::/64")
+	nodes := []c16Node{
+		{"unsafe", v4, un, false},
+		{"dualstack+unsafe4+unsafe6", dual, un46, false},
+		{"unsafe+default_local_cidr_any", v4, un, true},
+	}
+	if c.Thorough() {
+		nodes = append(nodes, c16Node{"dualstack", dual, nil, false}, c16Node{"dualstack+unsafe4+unsafe6+default_local_cidr_any", dual, un46, true})
+	}
+	return nodes
+}
+
+// peers of the nested phases: four identities (name x groups x issuer) x four address shapes. Shapes A and B take the
+// single-address fast path of Drop, C and D the table path (two certified addresses + unsafe networks). The remote
+// addresses sit at different depths of the rule CIDR chains: 10.0.0.2 is inside /32 /31 /29 /24 /8 /0, 10.0.0.9 only
+// inside /24 /8 /0 (and the sibling 10.0.0.8/29), 172.17.0.5 inside 172.17.0.0/24 /16 and 172.16.0.0/12, 172.17.1.5 not
+// inside the /24; fd00::2 inside /128 /64 /8 ::/0, fd00::9 not inside the /128, fd02::5 only inside fd02::/64 and ::/0.
+func c16NestPeers() []c16Peer {
+	ids := []c16Peer{
+		{Name: "h1", Groups: []string{"g1"}, Issuer: "sha1"},
+		{Name: "h2", Groups: nil, Issuer: "sha3"},
+		{Name: "h1", Groups: []string{"g1", "g2"}, Issuer: "sha2"},
+		{Name: "h2", Groups: []string{"g2"}, Issuer: "sha1"},
+	}
+	var out []c16Peer
+	for _, id := range ids {
+		a, b, cc, d := id, id, id, id
+		a.Shape, a.Networks = "A", c16Prefixes("10.0.0.2/24")
+		a.Remotes, a.Spoofs = c16Addrs("10.0.0.2"), c16Addrs("10.0.0.9")
+		b.Shape, b.Networks = "B", c16Prefixes("10.0.0.9/24")
+		b.Remotes, b.Spoofs = c16Addrs("10.0.0.9"), c16Addrs("10.0.0.2")
+		cc.Shape, cc.Networks, cc.Unsafe = "C", c16Prefixes("10.0.0.2/24", "fd00::2/64"), c16Prefixes("172.17.0.0/16")
+		cc.Remotes, cc.Spoofs = c16Addrs("10.0.0.2", "fd00::2", "172.17.0.5"), c16Addrs("10.0.0.9", "fd00::9", "172.18.0.5")
+		d.Shape, d.Networks, d.Unsafe = "D", c16Prefixes("10.0.0.9/24", "fd00::9/64"), c16Prefixes("172.17.0.0/16", "fd02::/64")
+		d.Remotes, d.Spoofs = c16Addrs("10.0.0.9", "fd00::9", "172.17.1.5", "172.17.0.5", "fd02::5"), c16Addrs("10.0.0.2", "fd00::2")
+		out = append(out, a, b, cc, d)
+	}
+	return out
+}
+
+// c16NestWorld: probes = every (remote, same-family local) address pair that is authentic in this node configuration x
+// {tcp, icmp} x {(80,79), (79,80)} x both directions; one tcp probe per direction for every address pair that is not
+// authentic (spoofed remote, remote outside the node's networks, local address not the node's): refused whatever the rules.
+func c16NestWorld(n c16Node, peers []c16Peer) *c16World {
+	w := &c16World{Node: n, Peers: peers}
+	locals4 := c16Addrs("10.0.0.1", "172.16.0.7", "10.0.0.77")
+	locals6 := c16Addrs("fd00::1", "fd01::7", "fd00::77")
+	ports := [][2]uint16{{80, 79}, {79, 80}}
+	for pi := range peers {
+		p := &peers[pi]
+		w.Hosts = append(w.Hosts, c16HostInfo(n, *p))
+		var out []c16Probe
+		for _, ra := range append(append([]netip.Addr{}, p.Remotes...), p.Spoofs...) {
+			locals := locals4
+			if ra.Is6() {
+				locals = locals6
+			}
+			for _, la := range locals {
+				rOK, lOK := c16RefAuthentic(n, p, firewall.Packet{RemoteAddr: ra, LocalAddr: la})
+				protos, pps := []uint8{firewall.ProtoTCP, firewall.ProtoICMP}, ports
+				if !rOK || !lOK {
+					protos, pps = protos[:1], ports[:1]
+				}
+				for _, proto := range protos {
+					for _, pp := range pps {
+						for _, inc := range []bool{true, false} {
+							out = append(out, c16Probe{firewall.Packet{LocalAddr: la, RemoteAddr: ra, LocalPort: pp[0], RemotePort: pp[1], Protocol: proto}, inc})
+						}
+					}
+				}
+			}
+		}
+		w.Probes = append(w.Probes, out)
+	}
+	return w
+}
+
+// c16Budget: the soft budget in seconds (bin/vcheck always exports VERIF_BUDGET_S); used to give every phase a share.
+func c16Budget(c *mc.Check) float64 {
+	if f, err := strconv.ParseFloat(os.Getenv("VERIF_BUDGET_S"), 64); err == nil && f > 0 {
+		return f
+	}
+	return mc.Pick(c, 45.0, 900.0)
 }
 
 func TestVerifC16(t *testing.T) {
@@ -862,6 +1125,7 @@ func TestVerifC16(t *testing.T) {
 	})
 
 	var total c16Stats
+	total.nest = &c16NestStats{}
 	var totalMu sync.Mutex
 	worldsBoth := int64(0) // (rule set, world) combinations in which both verdicts were produced
 	addStats := func(s *c16Stats) {
@@ -872,12 +1136,22 @@ func TestVerifC16(t *testing.T) {
 		total.authentic += s.authentic
 		total.tracked += s.tracked
 		total.leftover += s.leftover
+		if s.nest != nil {
+			total.nest.add(s.nest)
+		}
 		if s.allow > 0 && s.drop > 0 {
 			worldsBoth++
 		}
 		totalMu.Unlock()
 	}
-	stop := func() bool { return c.OutOfTime() || c.Violations() > 200 }
+	// every phase may run until its cumulative share of the soft budget is used up (a phase that finishes early leaves its
+	// time to the later ones), so that a capped run has still seen every family of rule sets
+	budget := c16Budget(c)
+	allDone := true
+	phaseStop := func(share float64) func() bool {
+		return func() bool { return c.OutOfTime() || c.Elapsed() > share*budget || c.Violations() > 200 }
+	}
+	stop := phaseStop(0.30)
 
 	// ---- phase 1: every single rule, in every world, full probes; per-field coverage
 	cov := &c16Cov{}
@@ -904,11 +1178,109 @@ func TestVerifC16(t *testing.T) {
 		c.Add("rule_sets_single", 1)
 	})
 	if !done {
+		allDone = false
 		c.Capped("single-rule phase stopped early (time budget or too many violations)")
 	}
 	phase1 := total
 
-	// ---- phase 2: every ordered pair (AddRule order matters for the shared table slots), incl. the same rule twice
+	// ---- phase 2: pairs of rules whose remote CIDRs nest / coincide / are disjoint, x local_cidr x CA x port bucket x
+	// selector kind (see the comment at c16NestAlpha)
+	nestA := c16NestAlpha{
+		Sels: append(c16CidrSels("0.0.0.0/0", "10.0.0.0/8", "10.0.0.0/24", "10.0.0.0/29", "10.0.0.2/32", "172.17.0.0/16", "172.17.0.0/24", "::/0", "fd00::/64", "fd00::2/128"),
+			c16Sel{Host: "h1", Cidr: "10.0.0.0/8"}, c16Sel{Groups: []string{"g1"}, Cidr: "10.0.0.0/24"},
+			c16Sel{Groups: []string{"g1"}}, c16Sel{Host: "h1"}, c16Sel{Cidr: "any", Wild: true}),
+		Locals: []string{"", "any", "172.16.0.0/16", "10.0.0.1/32"},
+		CAs:    [][2]string{{"", ""}, {"caN1", ""}, {"", "sha1"}},
+		PPs:    []c16PP{{"tcp", c16PortV{c16PortRange, 80, 80}}, {"any", c16PortV{c16PortAny, 0, 0}}},
+	}
+	if c.Thorough() {
+		nestA.Sels = append(nestA.Sels, c16CidrSels("10.0.0.8/29", "10.0.0.9/24", "10.0.0.2/31", "172.16.0.0/12", "fd00::/8", "fd02::/64")...)
+		nestA.Sels = append(nestA.Sels, c16Sel{Host: "h2", Cidr: "fd00::/64"}, c16Sel{Groups: []string{"g1", "g2"}, Cidr: "172.17.0.0/16"})
+		nestA.Locals = append(nestA.Locals, "fd00::/64", "fd01::/64")
+		nestA.CAs = append(nestA.CAs, [2]string{"", "sha3"})
+	}
+	nestT := c16NestAlpha{ // triples
+		Sels:   append(c16CidrSels("10.0.0.0/8", "10.0.0.0/24", "10.0.0.2/32", "::/0", "fd00::/64", "fd00::2/128"), c16Sel{Groups: []string{"g1"}}),
+		Locals: []string{"", "any", "172.16.0.0/16"},
+		CAs:    [][2]string{{"", ""}, {"caN1", ""}},
+		PPs:    nestA.PPs[:1],
+	}
+	if c.Thorough() {
+		nestT.Sels = append(nestT.Sels, c16CidrSels("10.0.0.0/29", "172.17.0.0/16", "172.17.0.0/24")...)
+		nestT.Locals = append(nestT.Locals, "10.0.0.1/32")
+	}
+	nestRules, nestTriple := nestA.rules(), nestT.rules()
+	var nestWorlds []*c16World
+	for _, n := range c16NestNodes(c) {
+		nestWorlds = append(nestWorlds, c16NestWorld(n, c16NestPeers()))
+	}
+	nestProbes := 0
+	for _, w := range nestWorlds {
+		nestProbes += w.size()
+	}
+	c.Set("nested_cidr_alphabet", map[string]any{"pair_rules": len(nestRules), "triple_rules": len(nestTriple), "selectors": len(nestA.Sels), "local_cidrs": len(nestA.Locals),
+		"ca_constraints": len(nestA.CAs), "port_buckets": len(nestA.PPs), "nodes": len(nestWorlds), "peers": len(nestWorlds[0].Peers), "probes_all_worlds": nestProbes})
+	runNest := func(set []c16Rule, incoming bool, phase string) {
+		for i := range set {
+			set[i].Incoming = incoming
+		}
+		for _, w := range nestWorlds {
+			st := c16Stats{nest: &c16NestStats{}}
+			c16RunSet(c, l, cp, w, set, firewall.ProtoICMP, phase, nil, &st)
+			addStats(&st)
+		}
+	}
+	// quick: every unordered pair (incl. the same rule twice), AddRule order and direction alternating; thorough: every
+	// ordered pair in both directions
+	nN := len(nestRules)
+	stop = phaseStop(0.55)
+	_, done = mc.ParallelItems(nN, 0, stop, func(i int, _ *mc.Enum) {
+		for j := mc.Pick(c, i, 0); j < nN && !stop(); j++ {
+			a, b := nestRules[i], nestRules[j]
+			if c.Thorough() {
+				runNest([]c16Rule{a, b}, true, "nested-cidr pair")
+				runNest([]c16Rule{a, b}, false, "nested-cidr pair")
+				c.Add("rule_sets_nested_pair", 2)
+				continue
+			}
+			if (i+j)&1 == 1 {
+				a, b = b, a
+			}
+			runNest([]c16Rule{a, b}, (i+j)&2 == 0, "nested-cidr pair")
+			c.Add("rule_sets_nested_pair", 1)
+		}
+	})
+	if !done || stop() {
+		allDone = false
+		c.Capped("nested-cidr pair phase stopped early (time budget or too many violations)")
+	}
+
+	// ---- phase 3: triples over the smaller nested alphabet (quick: i <= j <= k, rotated order; thorough: every ordered triple)
+	nNT := len(nestTriple)
+	stop = phaseStop(0.65)
+	_, done = mc.ParallelItems(nNT*nNT, 0, stop, func(ij int, _ *mc.Enum) {
+		i, j := ij/nNT, ij%nNT
+		if !c.Thorough() && j < i {
+			return
+		}
+		for k := mc.Pick(c, j, 0); k < nNT && !stop(); k++ {
+			set := []c16Rule{nestTriple[i], nestTriple[j], nestTriple[k]}
+			if !c.Thorough() {
+				for r := (i + j + k) % 3; r > 0; r-- {
+					set = append(set[1:], set[0])
+				}
+			}
+			runNest(set, (i+j+k)&1 == 0, "nested-cidr triple")
+			c.Add("rule_sets_nested_triple", 1)
+		}
+	})
+	if !done || stop() {
+		allDone = false
+		c.Capped("nested-cidr triple phase stopped early (time budget or too many violations)")
+	}
+	stop = phaseStop(0.85)
+
+	// ---- phase 4: every ordered pair (AddRule order matters for the shared table slots), incl. the same rule twice
 	nP := len(pairRules)
 	_, done = mc.ParallelItems(nP*nP, 0, stop, func(i int, _ *mc.Enum) {
 		set := []c16Rule{pairRules[i/nP], pairRules[i%nP]}
@@ -920,10 +1292,12 @@ func TestVerifC16(t *testing.T) {
 		c.Add("rule_sets_pair", 1)
 	})
 	if !done {
+		allDone = false
 		c.Capped("pair phase stopped early (time budget or too many violations)")
 	}
+	stop = phaseStop(1.0)
 
-	// ---- phase 3: every ordered triple of the small alphabet
+	// ---- phase 5: every ordered triple of the small alphabet
 	nT := len(tripleRules)
 	_, done = mc.ParallelItems(nT*nT*nT, 0, stop, func(i int, _ *mc.Enum) {
 		set := []c16Rule{tripleRules[i/(nT*nT)], tripleRules[(i/nT)%nT], tripleRules[i%nT]}
@@ -935,6 +1309,7 @@ func TestVerifC16(t *testing.T) {
 		c.Add("rule_sets_triple", 1)
 	})
 	if !done {
+		allDone = false
 		c.Capped("triple phase stopped early (time budget or too many violations)")
 	}
 
@@ -946,7 +1321,7 @@ func TestVerifC16(t *testing.T) {
 	}
 
 	// ---- vacuity guards
-	if c.Violations() == 0 && done {
+	if c.Violations() == 0 && allDone {
 		labels := [7]func(int) string{
 			func(i int) string { return fmt.Sprintf("dir incoming=%v", full.Dirs[i]) },
 			func(i int) string { return "proto " + full.Protos[i] },
@@ -987,8 +1362,22 @@ func TestVerifC16(t *testing.T) {
 		c.Require(total.allow > 0 && total.drop > 0, "both verdicts must occur (allow=%d drop=%d)", total.allow, total.drop)
 		c.Require(total.tracked == total.allow, "every allowed packet was looked up in conntrack (tracked=%d allow=%d)", total.tracked, total.allow)
 		c.Require(phase1.authentic > 0, "no authentic packets in phase 1")
+		// nested phases: the situations in which the covering prefixes of a remote address disagree really occurred, for
+		// both address families
+		ns := total.nest
+		for fam, name := range []string{"IPv4", "IPv6"} {
+			c.Require(ns.onlyWider[fam] > 0, "%s: no packet admitted only by a less specific covering cidr rule", name)
+			c.Require(ns.onlyNarrowest[fam] > 0, "%s: no packet admitted only by the most specific covering cidr rule", name)
+			c.Require(ns.samePrefix[fam] > 0, "%s: no packet decided between two rules with the same remote cidr", name)
+			c.Require(ns.byOtherKind[fam] > 0, "%s: no packet admitted by a groups/host/any rule next to a failing covering cidr rule", name)
+			c.Require(ns.depth3[fam] > 0, "%s: no remote address covered by three prefix lengths", name)
+		}
 	}
 
+	var ru syscall.Rusage
+	if syscall.Getrusage(syscall.RUSAGE_SELF, &ru) == nil { // the box is shared: CPU seconds, not wall time, size the tiers
+		c.Set("cpu_seconds", float64(ru.Utime.Sec+ru.Stime.Sec)+float64(ru.Utime.Usec+ru.Stime.Usec)/1e6)
+	}
 	c.Set("evaluations", total.evals)
 	c.Set("distinct_nontrivial", total.allow)
 	c.Set("rule", "one evaluation = (node config, ordered rule list, peer, packet, direction): distinct by construction (products of duplicate-free alphabets, each rule list enumerated once per world). Non-trivial = the reference admits the packet, i.e. both addresses are authentic AND some rule matches in all six conditions (direction, proto, port, CA, local_cidr, selector); the rest are evaluations where Drop must refuse.")
@@ -998,6 +1387,11 @@ func TestVerifC16(t *testing.T) {
 	c.Set("rule_sets_with_both_verdicts", worldsBoth)
 	c.Set("allowed_and_tracked", total.tracked)
 	c.Set("conntrack_entries_left_by_dropped_packets", total.leftover)
+	c.Set("nested_cidr_situations_v4_v6", map[string]any{
+		"remote_covered_by_2+_prefix_lengths": total.nest.covered2, "covered_by_3_prefix_lengths": total.nest.depth3,
+		"admitted_only_by_less_specific_rule": total.nest.onlyWider, "admitted_only_by_most_specific_rule": total.nest.onlyNarrowest,
+		"same_cidr_two_rules_one_admits": total.nest.samePrefix, "cidr_rule_fails_other_selector_admits": total.nest.byOtherKind,
+	})
 
 	// samples: real cases
 	w := worldsFull[1]
